@@ -467,6 +467,24 @@ def step (c : Cfg) (s : State) : Op → State
 
 def run (c : Cfg) (s : State) (ops : List Op) : State := ops.foldl (step c) s
 
+/-! ### restart -/
+
+/-- Close + OpenDB on the same files: everything durable survives, `lastMappingIDToInsert` starts again from 0 (OpenDB does
+    not restore it), so the next creation is NOT exempted by the global budget -/
+def reopen (s : State) : State := { s with lastCreated := 0 }
+
+/-- histories with restarts (kept apart from `Op`, which C16's replay model matches on exhaustively) -/
+inductive HOp where
+  | op (o : Op)
+  | reopen
+deriving DecidableEq, Repr
+
+def hstep (c : Cfg) (s : State) : HOp → State
+  | .op o => step c s o
+  | .reopen => reopen s
+
+def hrun (c : Cfg) (s : State) (ops : List HOp) : State := ops.foldl (hstep c) s
+
 /-! ### rendering (shared by the C15/C19 drivers and, later, C16) -/
 
 def showName (n : Name) : String := s!"{n.ns}:{n.loc}"
